@@ -177,3 +177,5 @@ func newMaterial(rng *rand.Rand, dir string) (*material, error) {
 func basicHeader(user, pw string) string {
 	return "Basic " + base64.StdEncoding.EncodeToString([]byte(user+":"+pw))
 }
+
+func b64(s string) string { return base64.StdEncoding.EncodeToString([]byte(s)) }
